@@ -77,6 +77,22 @@ def gen_value(r, t):
         return s if r.chance(0.6) else s + str(r.randint(0, 99))
     if t == 'boolean':
         return r.pick([0, 1])
+    if r.chance(0.2):
+        # a wall-clock time that does not exist in some local zones (the
+        # hour skipped when clocks go forward): last Sunday of March 01:xx
+        # (Europe/London), second Sunday of March 02:xx (US)
+        import datetime as _dt
+        y = r.randint(1990, 2037)
+        if r.chance(0.5):
+            d = _dt.date(y, 3, 31)
+            d -= _dt.timedelta(days=(d.weekday() + 1) % 7)
+            h = 1
+        else:
+            d = _dt.date(y, 3, 8)
+            d += _dt.timedelta(days=(6 - d.weekday()) % 7)
+            h = 2
+        return '%04d-%02d-%02d %02d:%02d:%02d' % (
+            d.year, d.month, d.day, h, r.randint(0, 59), r.randint(0, 59))
     return '%04d-%02d-%02d %02d:%02d:%02d' % (
         r.randint(1990, 2040), r.randint(1, 12), r.randint(1, 28),
         r.randint(0, 23), r.randint(0, 59), r.randint(0, 59))
@@ -107,6 +123,10 @@ def gen_plan(prop, r, tier, run):
     n = r.weighted([(1, 0), (1, 1), (6, r.randint(2, 10))])
     cfg = {'table': r.pick(['t', 'elements', 'T1']), 'columns': cols,
            'rows': gen_rows(r, cols, n)}
+    # the process's local time zone (POSIX TZ strings: no zone database
+    # needed)
+    cfg['tz'] = r.weighted([(7, None), (1.5, 'GMT0BST,M3.5.0/1,M10.5.0'),
+                            (1.5, 'EST5EDT,M3.2.0,M11.1.0')])
     if r.chance(0.4):
         # a database file shared with another writer on its own connection
         cfg['db_file'] = True
@@ -233,6 +253,12 @@ def execute(plan):
         sys.stdout = io.StringIO()
         sys.stderr = io.StringIO()
         conn = None
+        saved_tz = os.environ.get('TZ')
+        if cfg.get('tz'):
+            import time as _time
+            os.environ['TZ'] = cfg['tz']
+            _time.tzset()
+            ctx.stats['probes']['local_zone_with_daylight_saving'] += 1
         try:
             dbname = ':memory:'
             ctx.wconn = None
@@ -298,6 +324,13 @@ def execute(plan):
                 ctx.conn.close()
             elif conn is not None:
                 conn.close()
+            if cfg.get('tz'):
+                import time as _time
+                if saved_tz is None:
+                    os.environ.pop('TZ', None)
+                else:
+                    os.environ['TZ'] = saved_tz
+                _time.tzset()
             sys.stdout = saved['stdout']
             sys.stderr = saved['stderr']
             base.socket = saved['socket']
